@@ -38,6 +38,9 @@ def run_one(cs, tc, cat, df, addr, head27, hc):
     r = call(pms.adsb.callsign, m)
     if r != ("ok", exp):
         return "adsb.callsign(%s) -> %r, encoded %r" % (m, r, exp)
+    rk = call(pms.adsb.callsign, msg=m)
+    if rk != r:
+        return "adsb.callsign(msg=%s) -> %r, positional -> %r" % (m, rk, r)
     r = call(pms.adsb.category, m)
     if r != ("ok", cat):
         return "adsb.category(%s) -> %r, encoded %d" % (m, r, cat)
@@ -115,7 +118,34 @@ def chk_corpus(case, note):
     return None
 
 
+def enum_threads(ctx):
+    for k in range(4 if ctx.tier == "quick" else 32):
+        if ctx.mine(k):
+            yield {"ctx_seed": ctx.rng("thr", k).getrandbits(32)}
+
+
+def chk_threads(case, note):
+    """four threads decode different identifications at the same time (switch interval 1 us): every call still returns its own callsign"""
+    import random
+    from vlib import variants
+    rng = random.Random(case["ctx_seed"])
+    jobs = []
+    for _ in range(12):
+        cs = "".join(rng.choice(ALPHA) for _ in range(8))
+        me = (rng.randint(1, 4) << 51) | (rng.getrandbits(3) << 48) | pack(cs)
+        m = frames.tohex(frames.df17(rng.getrandbits(24), me), 112)
+        m2 = frames.tohex(frames.commb(20, rng.getrandbits(24), (0x20 << 48) | pack(cs), rng.getrandbits(27)), 112)
+        jobs.append(("adsb.callsign", pms.adsb.callsign, (m,), ("ok", cs.replace(" ", "_"))))
+        jobs.append(("commb.cs20", pms.commb.cs20, (m2,), ("ok", cs.replace(" ", "_"))))
+    p = variants.hammer(jobs, nthreads=4, rounds=150)
+    note.evals = len(jobs) * 4 * 150
+    note.cls("concurrent-callers")
+    note.nt(True)
+    return p
+
+
 LEGS = [
+    Leg("threads", chk_threads, enum=enum_threads, shards_quick=4, shards_thorough=8, doc="concurrent callers with a 1 us switch interval (detection is probabilistic, the verdict on a stateless decoder is not)"),
     Leg("corpus", chk_corpus, enum=enum_corpus, exhaustive=True, doc="98 real identification frames: decoded callsign re-encodes to the transmitted bits"),
     Leg("positions", chk_cs, enum=enum_positions, exhaustive=True, doc="every legal code at every position (8 x 37)"),
     Leg("strings", chk_cs, strategy=s_cs, quick=12000, thorough=600000, doc="random identifications with a one-character change"),
